@@ -34,7 +34,7 @@ pub struct TypeBox(pub u64);
 
 /// `crate::any::Any` as far as the readers build it
 #[derive(Copy)]
-pub enum Any { Null, Undefined, Prim(u64), Text(Ghost<Seq<char>>), Buffer(Ghost<Seq<u8>>), Array(Ghost<Seq<Any>>) }
+pub enum Any { Null, Undefined, Prim(u64), String(Ghost<Seq<char>>), Buffer(Ghost<Seq<u8>>), Array(Ghost<Seq<Any>>) }
 
 /// `crate::out::Out`: a primitive value, a sub-document or a reference to a nested shared type
 #[derive(Clone, Copy)]
@@ -138,6 +138,165 @@ impl SplittableString {
     }
 }
 
+impl String {
+    /// `String::as_str`
+    pub fn as_str(&self) -> (r: &String)
+        ensures r.chars@ == self.chars@,
+    {
+        self
+    }
+}
+
+impl Any {
+    /// `Any::from(c.to_string())`: the one-character text value
+    pub fn from_char(c: char) -> (r: Any)
+        ensures r == Any::String(Ghost(seq![c])),
+    {
+        let ghost g = seq![c];
+        Any::String(Ghost(g))
+    }
+
+    /// `impl From<&str> for Any`: the text value with the same characters
+    pub fn from(v: &String) -> (r: Any)
+        ensures r == Any::String(Ghost(v.chars@)),
+    {
+        Any::String(Ghost(v.chars@))
+    }
+}
+
+/// `std::mem::replace` (no vstd specification): moves `src` into `dest`, returns the previous value.  Verified body (vstd's `swap`)
+pub fn vx_replace<T>(dest: &mut T, src: T) -> (r: T)
+    ensures
+        r == *old(dest),
+        *final(dest) == src,
+{
+    let mut s = src;
+    core::mem::swap(dest, &mut s);
+    s
+}
+
+impl String {
+    /// `String::new`
+    pub fn new() -> (r: String)
+        ensures r.chars@ == Seq::<char>::empty(),
+    {
+        String { chars: Vec::new() }
+    }
+
+    /// `String::push_str(&str)` -- std: "appends a given string slice onto the end of this String" -- applied to a
+    /// `&SplittableString` through its `Deref<Target = str>`.  STAND-IN with a verified body.
+    pub fn push_str(&mut self, other: &SplittableString)
+        ensures
+            final(self).chars@ == old(self).chars@ + other.chars(),
+    {
+        let mut i: usize = 0;
+        while i < other.content.chars.len()
+            invariant
+                0 <= i <= other.content.chars@.len(),
+                self.chars@ == old(self).chars@ + other.content.chars@.subrange(0, i as int),
+            decreases other.content.chars@.len() - i,
+        {
+            self.chars.push(other.content.chars[i]);
+            proof {
+                assert(other.content.chars@.subrange(0, i as int).push(other.content.chars@[i as int]) =~= other.content.chars@.subrange(0, i + 1));
+            }
+            i += 1;
+        }
+        proof {
+            assert(other.content.chars@.subrange(0, i as int) =~= other.content.chars@);
+        }
+    }
+}
+
+pub mod vx_out {
+    use vstd::prelude::*;
+    use super::{Any, Out, ReadTxn};
+
+    /// the JSON image of a value (`Out::to_json`): opaque outside this module
+    pub closed spec fn json_of(o: Out) -> Any {
+        match o {
+            Out::Any(a) => a,
+            Out::YDoc(d) => Any::Prim(d.0),
+            Out::YRef(t) => Any::Prim(t.0),
+        }
+    }
+
+    /// the first arm of the real `Out::to_json` (`Out::Any(a) => a.clone()`)
+    pub proof fn lemma_json_of_any(a: Any)
+        ensures json_of(Out::Any(a)) == a,
+    {
+    }
+
+    impl Out {
+        /// `Out::to_json` (real: recursion into the nested shared type): OPAQUE
+        pub fn to_json<T: ReadTxn>(&self, txn: &T) -> (r: Any)
+            ensures r == json_of(*self),
+        {
+            match self {
+                Out::Any(a) => *a,
+                Out::YDoc(d) => Any::Prim(d.0),
+                Out::YRef(t) => Any::Prim(t.0),
+            }
+        }
+    }
+}
+use vx_out::*;
+
+// `buf.into_iter().map(|v| v.to_json(txn)).collect()` into the `Arc<[Any]>` of `Any::Array` -- std: every element of the vector, in
+// order, mapped by the closure.  STAND-INS with verified bodies for `Vec::into_iter` / `Iterator::map` / `Iterator::collect`; the
+// closure is the REAL one (annotated with its contract, @closure); the payload of `Any::Array` is a ghost sequence here.
+pub struct VxIntoIter {
+    pub v: Vec<Out>,
+}
+
+pub struct VxMap<F> {
+    pub v: Vec<Out>,
+    pub f: F,
+}
+
+pub fn vx_into_iter(v: Vec<Out>) -> (r: VxIntoIter)
+    ensures r.v@ == v@,
+{
+    VxIntoIter { v }
+}
+
+impl VxIntoIter {
+    pub fn map<F: Fn(Out) -> Any>(self, f: F) -> (r: VxMap<F>)
+        ensures r.v@ == self.v@ && r.f == f,
+    {
+        VxMap { v: self.v, f }
+    }
+}
+
+impl<F: Fn(Out) -> Any> VxMap<F> {
+    pub fn collect(self) -> (r: Ghost<Seq<Any>>)
+        requires
+            forall|i: int| 0 <= i < self.v@.len() ==> call_requires(self.f, (#[trigger] self.v@[i],)),
+        ensures
+            r@.len() == self.v@.len(),
+            forall|i: int| 0 <= i < self.v@.len() ==> call_ensures(self.f, (self.v@[i],), #[trigger] r@[i]),
+    {
+        let ghost mut res: Seq<Any> = Seq::empty();
+        let mut i: usize = 0;
+        while i < self.v.len()
+            invariant
+                0 <= i <= self.v@.len(),
+                res.len() == i,
+                forall|k: int| 0 <= k < self.v@.len() ==> call_requires(self.f, (#[trigger] self.v@[k],)),
+                forall|k: int| 0 <= k < i ==> call_ensures(self.f, (self.v@[k],), #[trigger] res[k]),
+            decreases self.v@.len() - i,
+        {
+            let x = self.v[i];
+            let y = (self.f)(x);
+            proof {
+                res = res.push(y);
+            }
+            i += 1;
+        }
+        Ghost(res)
+    }
+}
+
 // ---------------------------------------------------------------------------------------------
 // real declarations + the lowered item / branch
 // ---------------------------------------------------------------------------------------------
@@ -196,12 +355,12 @@ impl ItemContent {
     pub open spec fn elems_spec(&self) -> Seq<Out> {
         match self {
             ItemContent::Any(v) => v@.map_values(|a: Any| Out::Any(a)),
-            ItemContent::JSON(v) => v@.map_values(|s: String| Out::Any(Any::Text(Ghost(s.chars@)))),
+            ItemContent::JSON(v) => v@.map_values(|s: String| Out::Any(Any::String(Ghost(s.chars@)))),
             ItemContent::Binary(b) => seq![Out::Any(Any::Buffer(Ghost(b@)))],
             ItemContent::Doc(_, d) => seq![Out::YDoc(*d)],
             ItemContent::Type(t) => seq![Out::YRef(*t)],
             ItemContent::Embed(a) => seq![Out::Any(*a)],
-            ItemContent::String(s) => s.chars().map_values(|c: char| Out::Any(Any::Text(Ghost(seq![c])))),
+            ItemContent::String(s) => s.chars().map_values(|c: char| Out::Any(Any::String(Ghost(seq![c])))),
             ItemContent::Deleted(_) => Seq::empty(),
             ItemContent::Format(_, _) => Seq::empty(),
         }
@@ -212,7 +371,115 @@ impl ItemContent {
     @sig
         ensures r == self.len_spec(kind),
     @*/
+
+    /// `ItemContent::read(offset, buf)`: "reads a contents of current ItemContent into a given `buf`, starting from provided
+    /// `offset`; returns a number of elements read this way".  STAND-IN body, except for the arms `Any` and `JSON`, which are the
+    /// REAL ones (lifted below: `content_read_any`, `content_read_json`).  Real, other arms: Binary / Doc / Type / Embed write their
+    /// one element to buf[0] WHATEVER the offset is and return 1; String: `chars().skip(offset).take(buf.len())`, one
+    /// one-character text value per char; Deleted / Format: 0.
+    pub fn read(&self, offset: usize, buf: &mut [Out]) -> (n: usize)
+        ensures
+            read_post(self.elems_spec(), offset as int, old(buf)@, final(buf)@, n as int),
+    {
+        if buf.len() == 0 {
+            0
+        } else {
+            match self {
+                ItemContent::Any(values) => content_read_any(values, offset, buf),
+                ItemContent::String(v) => {
+                    let mut i = offset;
+                    let mut j = 0;
+                    while i < v.content.chars.len() && j < buf.len()
+                        invariant
+                            self.elems_spec().len() == v.content.chars@.len(),
+                            forall|k: int| 0 <= k < v.content.chars@.len() ==> self.elems_spec()[k] == Out::Any(Any::String(Ghost(seq![#[trigger] v.content.chars@[k]]))),
+                            read_inv(self.elems_spec(), offset as int, old(buf)@, buf@, i as int, j as int),
+                        decreases buf@.len() - j,
+                    {
+                        let c = v.content.chars[i];
+                        buf[j] = Out::Any(Any::from_char(c));
+                        i += 1;
+                        j += 1;
+                    }
+                    j
+                },
+                ItemContent::JSON(elements) => content_read_json(elements, offset, buf),
+                ItemContent::Binary(v) => {
+                    buf[0] = Out::Any(Any::Buffer(Ghost(v@)));
+                    1
+                },
+                ItemContent::Doc(_, doc) => {
+                    buf[0] = Out::YDoc(*doc);
+                    1
+                },
+                ItemContent::Type(c) => {
+                    buf[0] = Out::YRef(*c);
+                    1
+                },
+                ItemContent::Embed(v) => {
+                    buf[0] = Out::Any(*v);
+                    1
+                },
+                ItemContent::Deleted(_) => 0,
+                ItemContent::Format(_, _) => 0,
+            }
+        }
+    }
 }
+
+/// number of elements `read` copies: as many as the content has from `offset` on and the buffer takes
+pub open spec fn read_count(e: int, offset: int, l: int) -> int {
+    if offset <= e { min(e - offset, l) } else { 0 }
+}
+
+/// CONTRACT of `ItemContent::read` (e = the elements of the content): for an offset INSIDE the content (or an empty buffer /
+/// empty content) the elements e[offset ..] are copied to the front of the buffer as far as both reach, the rest of the buffer
+/// is untouched, the count is returned
+pub open spec fn read_post(e: Seq<Out>, offset: int, buf0: Seq<Out>, buf: Seq<Out>, n: int) -> bool {
+    &&& buf.len() == buf0.len()
+    &&& 0 <= n <= buf0.len()
+    &&& forall|j: int| n <= j < buf0.len() ==> buf[j] == buf0[j]
+    &&& (offset < e.len() || e.len() == 0 || buf0.len() == 0) ==> {
+        &&& n == read_count(e.len() as int, offset, buf0.len() as int)
+        &&& forall|j: int| 0 <= j < n ==> buf[j] == e[offset + j]
+    }
+}
+
+/// the loops of `read` (arms Any, JSON and the stand-in String arm) after j elements
+pub open spec fn read_inv(e: Seq<Out>, offset: int, buf0: Seq<Out>, buf: Seq<Out>, i: int, j: int) -> bool {
+    &&& buf.len() == buf0.len()
+    &&& i == offset + j
+    &&& 0 <= j <= buf0.len()
+    &&& offset <= e.len() ==> i <= e.len()
+    &&& offset > e.len() ==> j == 0
+    &&& forall|k: int| 0 <= k < j ==> buf[k] == e[offset + k]
+    &&& forall|k: int| j <= k < buf0.len() ==> buf[k] == buf0[k]
+}
+
+// the REAL arms `ItemContent::Any(values) => {..}` and `ItemContent::JSON(elements) => {..}` of `ItemContent::read` (R18 arm regions)
+/*@extract yrs/src/block.rs | impl ItemContent | region read | arm=ItemContent::Any(values) => | label=content_read_any
+@header
+    pub fn content_read_any(values: &Vec<Any>, offset: usize, buf: &mut [Out]) -> (n: usize)
+@sig
+    ensures
+        read_post(values@.map_values(|a: Any| Out::Any(a)), offset as int, old(buf)@, final(buf)@, n as int),
+@loop 1
+    invariant
+        read_inv(values@.map_values(|a: Any| Out::Any(a)), offset as int, old(buf)@, buf@, i as int, j as int),
+    decreases buf@.len() - j,
+@*/
+
+/*@extract yrs/src/block.rs | impl ItemContent | region read | arm=ItemContent::JSON(elements) => | label=content_read_json
+@header
+    pub fn content_read_json(elements: &Vec<String>, offset: usize, buf: &mut [Out]) -> (n: usize)
+@sig
+    ensures
+        read_post(elements@.map_values(|s: String| Out::Any(Any::String(Ghost(s.chars@)))), offset as int, old(buf)@, final(buf)@, n as int),
+@loop 1
+    invariant
+        read_inv(elements@.map_values(|s: String| Out::Any(Any::String(Ghost(s.chars@)))), offset as int, old(buf)@, buf@, i as int, j as int),
+    decreases buf@.len() - j,
+@*/
 
 /// sliced + lowered, see the table at the top
 pub struct Item {
@@ -301,9 +568,9 @@ pub open spec fn bview(b: &Branch) -> Seq<Out> {
 }
 
 /// ITEM WELL-FORMEDNESS (A-LEN): for a visible item, the block length `len`, the index length `content.len(kind)` and the
-/// number of elements its content yields are the same number
+/// number of elements its content yields are the same number, and it is at least 1 (`Item::new` refuses empty content)
 pub open spec fn item_ok(p: &Item, kind: OffsetKind) -> bool {
-    vis(p) ==> p.len as int == elems(p).len() && p.content.len_spec(kind) as int == elems(p).len()
+    vis(p) ==> p.len as int == elems(p).len() && p.content.len_spec(kind) as int == elems(p).len() && elems(p).len() >= 1
 }
 
 pub open spec fn items_ok(c: Seq<ItemPtr>, kind: OffsetKind) -> bool {
@@ -511,6 +778,1144 @@ impl Branch {
         vis(item) && index < item.len ==> r.0 == Some((&item.content, index as usize)),
         // a visible item in front of the index: its `len` units are consumed; an invisible item (tombstone / not countable): passed
         !(vis(item) && index < item.len) ==> r.0 is None && r.1 == index - (if vis(item) { item.len as int } else { 0 }),
+@*/
+
+
+// ---------------------------------------------------------------------------------------------
+// specification, part 2: the cursor of a `BlockIter`
+// ---------------------------------------------------------------------------------------------
+pub struct Store {
+    pub offset_kind: OffsetKind,
+}
+
+/// `ReadTxn` as far as the readers use it: `txn.store().offset_kind`, the unit in which the document counts text
+pub trait ReadTxn: Sized {
+    spec fn kind_spec(&self) -> OffsetKind;
+
+    fn store(&self) -> (r: &Store)
+        ensures
+            r.offset_kind == self.kind_spec(),
+    ;
+}
+
+/*@extract yrs/src/block_iter.rs | - | struct BlockIter | rules=SUB(from=branch: BranchPtr,;;to=pub branch: BranchPtr,) SUB(from=index: u32,;;to=pub index: u32,) SUB(from=rel: u32,;;to=pub rel: u32,) SUB(from=next_item: Option<ItemPtr>,;;to=pub next_item: Option<ItemPtr>,) SUB(from=reached_end: bool,;;to=pub reached_end: bool,) @*/
+
+pub open spec fn min(a: int, b: int) -> int {
+    if a <= b { a } else { b }
+}
+
+/// THE ELEMENTS AHEAD of the cursor (next_item, rel, reached_end): nothing once the end has been reached, otherwise the elements
+/// of the chain that begins with `next_item`, without the first `rel` of them
+pub open spec fn ahead_of(ni: Option<ItemPtr>, rel: int, re: bool) -> Seq<Out> {
+    if re { Seq::empty() } else { view(chain(ni)).skip(rel) }
+}
+
+/// a cursor is in order: the items from it on are well-formed; a cursor without an item is at the end; `rel` is 0 or an offset
+/// INSIDE the visible item the cursor stands on
+pub open spec fn cursor_ok(ni: Option<ItemPtr>, rel: int, re: bool, kind: OffsetKind) -> bool {
+    &&& items_ok(chain(ni), kind)
+    &&& ni is None ==> re
+    &&& re ==> rel == 0
+    &&& !re ==> (rel == 0 || (vis(ni.unwrap()) && 0 < rel < elems(ni.unwrap()).len()))
+}
+
+impl BlockIter {
+    pub open spec fn ahead(&self) -> Seq<Out> {
+        ahead_of(self.next_item, self.rel as int, self.reached_end)
+    }
+
+    /// REPRESENTATION INVARIANT of a `BlockIter` over `self.branch` (established by `new`, kept by every reader):
+    /// the cursor is in order, stands in the chain of the branch, `index` is a position 0 ..= |V| and the elements ahead of
+    /// the cursor are exactly V[index ..]
+    pub open spec fn wf(&self, kind: OffsetKind) -> bool {
+        &&& self.cwf(kind)
+        &&& self.index <= bview(self.branch).len()
+        &&& bview(self.branch).skip(self.index as int) =~= self.ahead()
+    }
+
+    /// the CURSOR part of the invariant (all that `try_forward` needs; `slice` calls it while `index` is still ahead of the cursor)
+    pub open spec fn cwf(&self, kind: OffsetKind) -> bool {
+        &&& cursor_ok(self.next_item, self.rel as int, self.reached_end, kind)
+        &&& walk_inv(chain(self.branch.start), chain(self.next_item))
+        &&& self.rel <= self.index
+    }
+
+    /// THE ABSTRACTION FUNCTION  pos(cursor): the position in V the cursor (next_item, rel, reached_end) stands for -- the
+    /// number of elements of V that are NOT ahead of it.  Under `wf` it is the field `index`.
+    pub open spec fn pos(&self) -> int {
+        bview(self.branch).len() - self.ahead().len()
+    }
+}
+
+/// V of the chain that begins with `p`: the elements `p` contributes, then the rest
+pub proof fn lemma_view_step(p: ItemPtr)
+    ensures
+        chain(Some(p)) =~= seq![p] + chain(p.right),
+        view(chain(Some(p))) =~= velems(p) + view(chain(p.right)),
+        chain(Some(p)).len() == 1 + chain(p.right).len(),
+        chain(Some(p))[0] == p,
+{
+    let c = chain(Some(p));
+    assert(c =~= seq![p] + chain(p.right));
+    assert(c.skip(1) =~= chain(p.right));
+}
+
+/// the suffix of a suffix
+pub proof fn lemma_walk_step(c0: Seq<ItemPtr>, p: ItemPtr, kind: OffsetKind)
+    requires
+        walk_inv(c0, chain(Some(p))),
+    ensures
+        walk_inv(c0, chain(p.right)),
+        items_ok(chain(Some(p)), kind) ==> items_ok(chain(p.right), kind) && item_ok(p, kind),
+{
+    lemma_view_step(p);
+    let k = c0.len() - chain(Some(p)).len();
+    assert(c0.skip(k).skip(1) =~= c0.skip(k + 1));
+    assert(chain(Some(p)).skip(1) =~= chain(p.right));
+    if items_ok(chain(Some(p)), kind) {
+        lemma_items_ok_skip(chain(Some(p)), kind, 1);
+        assert(item_ok(chain(Some(p))[0], kind));
+    }
+}
+
+pub proof fn lemma_view_len(c: Seq<ItemPtr>)
+    ensures
+        view(c).len() >= 0,
+    decreases c.len(),
+{
+}
+
+/// pos(cursor) == index
+pub proof fn lemma_pos(it: &BlockIter, kind: OffsetKind)
+    requires
+        it.wf(kind),
+    ensures
+        it.pos() == it.index,
+        it.ahead().len() == bview(it.branch).len() - it.index,
+{
+}
+
+// ---- one step of the walk of `try_forward`, as a relation on (item, len, rel, reached_end); B0 = V of the chain the walk began
+// on, N = the number of elements to pass
+/// at the loop head
+pub open spec fn fwd_inv(b0: Seq<Out>, n: int, item: Option<ItemPtr>, len: int, rel: int, re: bool, kind: OffsetKind) -> bool {
+    &&& rel == 0
+    &&& 0 <= len <= n
+    &&& item is Some
+    &&& items_ok(chain(item), kind)
+    &&& !re ==> n - len <= b0.len() && view(chain(item)) =~= b0.skip(n - len)
+    &&& re ==> n - len == b0.len()
+}
+
+/// when the loop is left
+pub open spec fn fwd_done(b0: Seq<Out>, n: int, item: Option<ItemPtr>, len: int, rel: int, re: bool, kind: OffsetKind) -> bool {
+    &&& item is Some
+    &&& cursor_ok(item, rel, re, kind)
+    &&& len == n - min(n, b0.len() as int)
+    &&& ahead_of(item, rel, re) =~= b0.skip(min(n, b0.len() as int))
+    &&& rel <= n
+    // the cursor is NORMALISED: it stands at the end or on a visible item (at an offset inside it)
+    &&& !re ==> vis(item.unwrap()) && rel < elems(item.unwrap()).len()
+}
+
+
+// ---------------------------------------------------------------------------------------------
+// specification, part 3: what every reader returns, as a function of the branch state (V and the two cached counters), and
+// THE TYING THEOREM
+// ---------------------------------------------------------------------------------------------
+/// `Array::get(i)`, `BlockIter::read_value` at position i, `ArrayIter::next` at position i: V[i] -- if there is one and i lies
+/// below the CACHED counter `content_len` (`try_forward` / `slice` refuse to go beyond it)
+pub open spec fn get_spec(b: &Branch, i: int) -> Option<Out> {
+    if 0 <= i < bview(b).len() && i < b.content_len { Some(bview(b)[i]) } else { None }
+}
+
+/// the elements of the JSON array `to_json` builds: the images of the first `block_len` elements of V
+pub open spec fn to_json_spec(b: &Branch) -> Seq<Any> {
+    bview(b).take(b.block_len as int).map_values(|o: Out| json_of(o))
+}
+
+/// THE ONE THING THE READERS CANNOT DECIDE (integration maintains it): the cached counters are the number of elements
+pub open spec fn counters_ok(b: &Branch) -> bool {
+    b.block_len == bview(b).len() && b.content_len == bview(b).len()
+}
+
+/// V split at item k
+pub proof fn lemma_view_split(c: Seq<ItemPtr>, k: int)
+    requires
+        0 <= k <= c.len(),
+    ensures
+        view(c) =~= view(c.take(k)) + view(c.skip(k)),
+    decreases k,
+{
+    if k == 0 {
+        assert(c.take(0) =~= Seq::<ItemPtr>::empty());
+        assert(c.skip(0) =~= c);
+    } else {
+        let t = c.skip(1);
+        lemma_view_split(t, k - 1);
+        assert(c.take(k).skip(1) =~= t.take(k - 1));
+        assert(t.skip(k - 1) =~= c.skip(k));
+        assert(c.take(k)[0] == c[0]);
+    }
+}
+
+/// the element at offset o of the visible item k is V[(number of elements in front of item k) + o], and `locate` finds it there
+pub proof fn lemma_locate_at(c: Seq<ItemPtr>, k: int, o: int)
+    requires
+        0 <= k < c.len(),
+        vis(c[k]),
+        0 <= o < elems(c[k]).len(),
+    ensures
+        locate(c, view(c.take(k)).len() + o) == Some((k, o)),
+    decreases k,
+{
+    if k == 0 {
+        assert(c.take(0) =~= Seq::<ItemPtr>::empty());
+    } else {
+        let t = c.skip(1);
+        assert(c.take(k).skip(1) =~= t.take(k - 1));
+        assert(c.take(k)[0] == c[0]);
+        assert(t[k - 1] == c[k]);
+        lemma_locate_at(t, k - 1, o);
+        lemma_view_len(t.take(k - 1));
+    }
+}
+
+/// INDEX -> ITEM POSITION: a normalised cursor of a well-formed `BlockIter` at position `index` stands ON the item and AT the
+/// offset where `locate` -- i.e. `Branch::get_at(index)` -- finds V[index]
+pub proof fn lemma_cursor_designates(it: &BlockIter, kind: OffsetKind)
+    requires
+        it.wf(kind),
+        !it.reached_end,
+        it.next_item is Some,
+        vis(it.next_item.unwrap()),
+        it.rel < elems(it.next_item.unwrap()).len(),
+    ensures
+        ({
+            let c0 = chain(it.branch.start);
+            let k = c0.len() - chain(it.next_item).len();
+            0 <= k < c0.len() && c0[k] == it.next_item.unwrap() && locate(c0, it.index as int) == Some((k, it.rel as int))
+                && it.index < bview(it.branch).len() && bview(it.branch)[it.index as int] == elems(it.next_item.unwrap())[it.rel as int]
+        }),
+{
+    let c0 = chain(it.branch.start);
+    let p = it.next_item.unwrap();
+    let k = c0.len() - chain(it.next_item).len();
+    lemma_view_step(p);
+    assert(c0.skip(k)[0] == c0[k]);
+    lemma_view_split(c0, k);
+    lemma_view_len(chain(p.right));
+    lemma_view_len(c0.take(k));
+    lemma_locate_at(c0, k, it.rel as int);
+    lemma_locate(c0, it.index as int);
+    let w = view(chain(it.next_item));
+    assert(w =~= elems(p) + view(chain(p.right)));
+    assert(bview(it.branch).skip(it.index as int)[0] == w.skip(it.rel as int)[0]);
+}
+
+/// LIFETIME READING of `ArrayIter` (contract of `next` with the cached counter right): `states[i]` is what is pending before the
+/// i-th call, `outs[i]` what that call returns, and the call after the last of them returns None (nothing is pending)
+pub open spec fn is_trace(states: Seq<Seq<Out>>, outs: Seq<Out>) -> bool {
+    &&& states.len() == outs.len() + 1
+    &&& forall|i: int| 0 <= i < outs.len() ==> (#[trigger] states[i]).len() > 0 && outs[i] == states[i][0] && states[i + 1] == states[i].skip(1)
+    &&& states.last().len() == 0
+}
+
+/// DRAIN LEMMA: iterating to the end yields exactly what was pending at the beginning, in order
+pub proof fn lemma_drain(states: Seq<Seq<Out>>, outs: Seq<Out>)
+    requires
+        is_trace(states, outs),
+    ensures
+        outs =~= states[0],
+    decreases outs.len(),
+{
+    if outs.len() > 0 {
+        let st = states.skip(1);
+        let ou = outs.skip(1);
+        assert forall|i: int| 0 <= i < ou.len() implies (#[trigger] st[i]).len() > 0 && ou[i] == st[i][0] && st[i + 1] == st[i].skip(1) by {
+            assert(st[i] == states[i + 1]);
+            assert(st[i + 1] == states[i + 2]);
+            assert(ou[i] == outs[i + 1]);
+        }
+        assert(st.last() == states.last());
+        lemma_drain(st, ou);
+        assert(st[0] == states[1]);
+        assert(states[0].len() > 0 && outs[0] == states[0][0] && states[1] == states[0].skip(1));
+        assert(outs =~= seq![outs[0]] + ou);
+        assert(states[0] =~= seq![states[0][0]] + states[0].skip(1));
+    }
+}
+
+/// THE TYING THEOREM.  For EVERY state of a branch whose items are well-formed (A-LEN), with c = the chain, V = view(c):
+///   (1) `Branch::get_at(i)` finds an element exactly for 0 <= i < |V|, and it is V[i];
+///   (2) `Array::get(i)` / `read_value` / `ArrayIter::next` at position i / `slice` never return anything but V[i] (the
+///       element `get_at(i)` points to), and do return it for every i below the cached counter `content_len`;
+///   (3) `to_json` lists the JSON images of a prefix of V.
+/// and IF THE CACHED COUNTERS ARE RIGHT (`counters_ok`, the single precondition integration has to provide):
+///   (4) get(i) == V[i] for i < len(), and get(i) is None EXACTLY when i >= len();
+///   (5) an ArrayIter created by `iter()` and drained yields exactly V, in order: len() elements, the i-th being get(i);
+///   (6) to_json is the array of the JSON images of exactly these elements: its size is len().
+pub proof fn theorem_seq_read_paths_agree(b: &Branch, kind: OffsetKind, i: int, states: Seq<Seq<Out>>, outs: Seq<Out>)
+    requires
+        items_ok(chain(b.start), kind),
+        0 <= i,
+        // a drained ArrayIter that started at position 0
+        states[0] == bview(b),
+        is_trace(states, outs),
+    ensures
+        // (1)
+        locate(chain(b.start), i) is Some <==> i < bview(b).len(),
+        match locate(chain(b.start), i) {
+            Some((k, o)) => 0 <= k < chain(b.start).len() && vis(chain(b.start)[k]) && 0 <= o < elems(chain(b.start)[k]).len()
+                && bview(b)[i] == elems(chain(b.start)[k])[o],
+            None => true,
+        },
+        // (2)
+        get_spec(b, i) is Some ==> get_spec(b, i) == Some(bview(b)[i]) && locate(chain(b.start), i) is Some,
+        i < bview(b).len() && i < b.content_len ==> get_spec(b, i) == Some(bview(b)[i]),
+        // (3)
+        b.block_len <= bview(b).len() ==> to_json_spec(b).len() == b.block_len
+            && forall|j: int| 0 <= j < b.block_len ==> #[trigger] to_json_spec(b)[j] == json_of(bview(b)[j]),
+        // (4) - (6)
+        counters_ok(b) ==> {
+            &&& get_spec(b, i) == (if i < b.block_len { Some(bview(b)[i]) } else { None })
+            &&& (get_spec(b, i) is None <==> i >= b.block_len)
+            &&& (get_spec(b, i) is None <==> locate(chain(b.start), i) is None)
+            &&& outs =~= bview(b)
+            &&& outs.len() == b.block_len
+            &&& (i < outs.len() ==> get_spec(b, i) == Some(outs[i]))
+            &&& to_json_spec(b) =~= outs.map_values(|o: Out| json_of(o))
+            &&& to_json_spec(b).len() == b.block_len
+        },
+{
+    lemma_locate(chain(b.start), i);
+    lemma_drain(states, outs);
+    if counters_ok(b) {
+        assert(bview(b).take(b.block_len as int) =~= bview(b));
+    }
+}
+
+// ---------------------------------------------------------------------------------------------
+// specification, part 4: item well-formedness DERIVED per content kind; text
+// ---------------------------------------------------------------------------------------------
+/// the countable content kinds (`ItemContent::is_countable`)
+pub open spec fn countable_kind(c: &ItemContent) -> bool {
+    !(c is Deleted) && !(c is Format)
+}
+
+/// what `Item::new` establishes: the block length is the UTF-16 length of the content, the countable flag is the content's,
+/// the content is not empty
+pub open spec fn item_new_ok(p: &Item) -> bool {
+    &&& p.len == p.content.len_spec(OffsetKind::Utf16)
+    &&& p.info.countable_spec() == countable_kind(&p.content)
+    &&& p.len >= 1
+}
+
+/// A-LEN DERIVED for every content kind but String (the payload of an Any / JSON content fits the u32 length): `len`,
+/// `content.len(kind)` and the number of elements `read` yields agree, in EVERY offset kind
+pub proof fn lemma_item_ok_non_string(p: &Item, kind: OffsetKind)
+    requires
+        item_new_ok(p),
+        !(p.content is String),
+        p.content is Any ==> p.content->Any_0@.len() <= u32::MAX,
+        p.content is JSON ==> p.content->JSON_0@.len() <= u32::MAX,
+    ensures
+        item_ok(p, kind),
+{
+}
+
+/// ... and for String content exactly when the string has as many characters as index units: no astral character in a UTF-16
+/// document, ASCII only in a Bytes document (OBSERVATION S1: otherwise `read` yields FEWER elements than `len` / `content_len`
+/// count)
+pub proof fn lemma_item_ok_string(p: &Item, kind: OffsetKind)
+    requires
+        item_new_ok(p),
+        p.content is String,
+        p.content->String_0.str_ok(),
+        p.content->String_0.vx_utf16_len <= u32::MAX && p.content->String_0.vx_bytes_len <= u32::MAX,
+    ensures
+        item_ok(p, kind) <==> (vis(p) ==> p.content->String_0.chars().len() == utf16_len(p.content->String_0.chars())
+            && p.content->String_0.chars().len() == text_len(p.content->String_0.chars(), kind)),
+{
+}
+
+pub proof fn lemma_text_len_add(a: Seq<char>, b: Seq<char>, kind: OffsetKind)
+    ensures
+        text_len(a + b, kind) == text_len(a, kind) + text_len(b, kind),
+    decreases a.len(),
+{
+    if a.len() == 0 {
+        assert(a + b =~= b);
+    } else {
+        lemma_text_len_add(a.skip(1), b, kind);
+        assert((a + b).skip(1) =~= a.skip(1) + b);
+        assert((a + b)[0] == a[0]);
+    }
+}
+
+/// the index units of an item: what integration adds to the cached counter `content_len` for it
+pub open spec fn units(p: &Item, kind: OffsetKind) -> int {
+    if vis(p) { p.content.len_spec(kind) as int } else { 0 }
+}
+
+/// the number of index units of a chain: what `content_len` -- `Text::len` -- caches
+pub open spec fn units_of(c: Seq<ItemPtr>, kind: OffsetKind) -> int
+    decreases c.len(),
+{
+    if c.len() == 0 { 0 } else { units(c[0], kind) + units_of(c.skip(1), kind) }
+}
+
+/// the index units of the visible items that are NOT strings (embeds, nested types: one each)
+pub open spec fn other_units_of(c: Seq<ItemPtr>, kind: OffsetKind) -> int
+    decreases c.len(),
+{
+    if c.len() == 0 { 0 } else { (if c[0].content is String { 0 } else { units(c[0], kind) }) + other_units_of(c.skip(1), kind) }
+}
+
+/// number of visible embeds / nested types / sub-documents / binaries
+pub open spec fn embeds_of(c: Seq<ItemPtr>) -> int
+    decreases c.len(),
+{
+    if c.len() == 0 { 0 } else { (if vis(c[0]) && !(c[0].content is String) { 1int } else { 0int }) + embeds_of(c.skip(1)) }
+}
+
+/// a text item: the flags are the content's, a string's cached lengths are those of its characters and fit u32
+pub open spec fn text_item_ok(p: &Item) -> bool {
+    &&& p.info.countable_spec() == countable_kind(&p.content)
+    &&& p.content is String ==> p.content->String_0.str_ok() && p.content->String_0.vx_utf16_len <= u32::MAX && p.content->String_0.vx_bytes_len <= u32::MAX
+    // a text holds strings, formats, embeds and nested types (and collected tombstones), no value vectors
+    &&& !(p.content is Any) && !(p.content is JSON)
+}
+
+/// TEXT: "a text's length equals the length of get_string in the configured unit plus one per embed" -- over the view, in BOTH
+/// offset kinds: the number of index units of the chain (what `Text::len` returns if the cached counter `content_len` is right)
+/// is the length of `get_string()` in the unit `kind` plus the number of visible non-string items
+pub proof fn theorem_text_len(c: Seq<ItemPtr>, kind: OffsetKind)
+    requires
+        forall|i: int| 0 <= i < c.len() ==> text_item_ok(#[trigger] c[i]),
+    ensures
+        units_of(c, kind) == text_len(text_of(c), kind) + embeds_of(c),
+        embeds_of(c) >= 0,
+    decreases c.len(),
+{
+    if c.len() > 0 {
+        let t = c.skip(1);
+        assert forall|i: int| 0 <= i < t.len() implies text_item_ok(#[trigger] t[i]) by {
+            assert(t[i] == c[i + 1]);
+        }
+        theorem_text_len(t, kind);
+        lemma_text_len_add(item_text(c[0]), text_of(t), kind);
+        assert(text_item_ok(c[0]));
+        assert(text_len(Seq::<char>::empty(), kind) == 0);
+    } else {
+        assert(text_len(Seq::<char>::empty(), kind) == 0);
+    }
+}
+
+// ---------------------------------------------------------------------------------------------
+// the real code, part 2: BlockIter (yrs/src/block_iter.rs)
+// ---------------------------------------------------------------------------------------------
+impl BlockIter {
+    /*@extract yrs/src/block_iter.rs | impl BlockIter | fn new | label=block_iter_new
+    @ret r
+    @sig
+        ensures
+            r.branch == branch && r.index == 0 && r.rel == 0 && r.next_item == branch.start && r.reached_end == (branch.start is None),
+            // position 0: everything is ahead
+            r.ahead() == bview(branch),
+            forall|kind: OffsetKind| items_ok(chain(branch.start), kind) ==> #[trigger] r.wf(kind),
+    @start
+        proof {
+            assert(chain(branch.start).skip(0) =~= chain(branch.start));
+            assert(bview(branch).skip(0) =~= bview(branch));
+            if branch.start is None {
+                assert(bview(branch) =~= Seq::<Out>::empty());
+            }
+        }
+    @*/
+
+    /*@extract yrs/src/block_iter.rs | impl BlockIter | fn rel | label=block_iter_rel
+    @ret r
+    @sig
+        ensures r == self.rel,
+    @*/
+
+    /*@extract yrs/src/block_iter.rs | impl BlockIter | fn finished | label=block_iter_finished
+    @ret r
+    @sig
+        ensures
+            r == (self.reached_end || self.index == self.branch.content_len),
+            // with the cached counter right: finished <==> the cursor stands at |V| (nothing is ahead)
+            forall|kind: OffsetKind| #[trigger] self.wf(kind) && self.branch.content_len == bview(self.branch).len() ==> r == (self.pos() == bview(self.branch).len()),
+    @*/
+
+    /*@extract yrs/src/block_iter.rs | impl BlockIter | fn next_item | label=block_iter_next_item
+    @ret r
+    @sig
+        ensures r == self.next_item,
+    @*/
+
+    /*@extract yrs/src/block_iter.rs | impl BlockIter | fn left | label=block_iter_left
+    @ret r
+    @sig
+        ensures
+            r == (if self.reached_end { self.next_item } else { match self.next_item { Some(item) => item.left, None => None } }),
+    @*/
+
+    /*@extract yrs/src/block_iter.rs | impl BlockIter | fn right | label=block_iter_right
+    @ret r
+    @sig
+        ensures
+            r == (if self.reached_end { None } else { self.next_item }),
+    @*/
+
+    /*@extract yrs/src/block_iter.rs | impl BlockIter | fn can_forward | label=block_iter_can_forward
+    @ret r
+    @sig
+        ensures
+            // not at the end, and: something is left to pass, or the cursor stands on an INVISIBLE item (tombstone / not countable)
+            r == (!self.reached_end && (len > 0 || (ptr is Some && !vis(ptr.unwrap())))),
+    @*/
+
+    #[verifier::loop_isolation(false)]
+    #[verifier::allow_complex_invariants]
+    /*@extract yrs/src/block_iter.rs | impl BlockIter | fn try_forward | label=block_iter_try_forward
+    @ret r
+    @sig
+        requires
+            old(self).cwf(txn.kind_spec()),
+            // DOMAIN RESTRICTION: `self.index + len` is an unchecked u32 addition
+            old(self).index + len <= u32::MAX,
+        ensures
+            final(self).branch == old(self).branch,
+            // WHEN it answers true: the degenerate call (nothing to pass on an empty list), or the target does not exceed the CACHED
+            // counter `branch.content_len`
+            r == ((len == 0 && old(self).next_item is None) || (old(self).index + len <= old(self).branch.content_len && old(self).next_item is Some)),
+            !r ==> *final(self) == *old(self),
+            // true: `len` elements are passed -- all that are left if there are fewer --, `index` moves with the cursor ...
+            r ==> final(self).cwf(txn.kind_spec())
+                && final(self).ahead() =~= old(self).ahead().skip(min(len as int, old(self).ahead().len() as int))
+                && final(self).index == old(self).index + min(len as int, old(self).ahead().len() as int),
+            // ... i.e. from position p the cursor stands at position min(p + len, |V|)
+            r && old(self).wf(txn.kind_spec()) ==> final(self).wf(txn.kind_spec())
+                && final(self).index == min(old(self).index + len, bview(old(self).branch).len() as int),
+            // ... NORMALISED: at the end (`reached_end`) or ON the visible item that holds the next element, `rel` being the offset
+            // of that element in it
+            r && old(self).next_item is Some ==> final(self).next_item is Some && final(self).rel <= len + old(self).rel,
+            r && old(self).next_item is Some && !final(self).reached_end ==> vis(final(self).next_item.unwrap())
+                && final(self).rel < elems(final(self).next_item.unwrap()).len(),
+            // forward to EXACTLY the end is allowed and sets `reached_end`
+            r && old(self).next_item is Some && len >= old(self).ahead().len() ==> final(self).reached_end,
+            // progress measure for the caller (`slice`)
+            r ==> cursor_measure(final(self).next_item, final(self).reached_end) <= cursor_measure(old(self).next_item, old(self).reached_end),
+            r && !old(self).reached_end && old(self).next_item is Some && !vis(old(self).next_item.unwrap())
+                ==> cursor_measure(final(self).next_item, final(self).reached_end) < cursor_measure(old(self).next_item, old(self).reached_end),
+    @start
+        let ghost kind = txn.kind_spec();
+        let ghost n0 = len as int;
+        let ghost c0 = chain(self.branch.start);
+        let ghost vv = bview(self.branch);
+        let ghost ni0 = self.next_item;
+        let ghost re0 = self.reached_end;
+        let ghost rel0 = self.rel as int;
+        let ghost p0 = self.index as int;
+        let ghost a0 = self.ahead();
+        let ghost b0 = ahead_of(self.next_item, 0, self.reached_end);
+        let ghost m0 = cursor_measure(self.next_item, self.reached_end);
+        proof {
+            lemma_view_len(chain(self.next_item));
+        }
+    @before 1 `stmt:while`
+        let ghost nn = len as int;
+        proof {
+            assert(nn == n0 + rel0);
+            assert(b0.skip(0) =~= b0);
+            if !re0 {
+                lemma_view_step(ni0.unwrap());
+            }
+        }
+    @loop 1
+        invariant_except_break
+            fwd_inv(b0, nn, item, len as int, self.rel as int, self.reached_end, kind),
+            cursor_measure(item, self.reached_end) < m0 || (item == ni0 && self.reached_end == re0),
+        invariant
+            self.branch == old(self).branch,
+            self.index == p0 + n0,
+            walk_inv(c0, chain(item)),
+            cursor_measure(item, self.reached_end) <= m0,
+            re0 ==> self.reached_end,
+        ensures
+            fwd_done(b0, nn, item, len as int, self.rel as int, self.reached_end, kind),
+            cursor_measure(item, self.reached_end) < m0 || re0 || vis(ni0.unwrap()),
+        decreases
+            cursor_measure(item, self.reached_end),
+    @loopstart 1
+        let ghost vx_i = item.unwrap();
+        let ghost vx_len = len as int;
+        proof {
+            lemma_view_step(vx_i);
+            lemma_walk_step(c0, vx_i, kind);
+            lemma_view_len(chain(vx_i.right));
+            assert(b0.skip(nn - vx_len).skip(velems(vx_i).len() as int) =~= b0.skip(nn - vx_len + velems(vx_i).len()));
+            assert((velems(vx_i) + view(chain(vx_i.right))).skip(velems(vx_i).len() as int) =~= view(chain(vx_i.right)));
+        }
+    @before 1 `stmt:break`
+        proof {
+            assert(view(chain(item)).skip(vx_len) =~= b0.skip(nn));
+        }
+    @afterloop 1
+        proof {
+            let m = min(nn, b0.len() as int);
+            assert(a0 =~= b0.skip(rel0));
+            assert(b0.skip(rel0).skip(m - rel0) =~= b0.skip(m));
+            if old(self).wf(kind) {
+                assert(vv.skip(p0).skip(m - rel0) =~= vv.skip(p0 + m - rel0));
+            }
+        }
+    @*/
+}
+
+/// the loops of `slice`: a0 = the elements ahead of the cursor at the call, l = the buffer length; after `read` elements
+pub open spec fn slice_inv(a0: Seq<Out>, l: int, buf0: Seq<Out>, buf: Seq<Out>, c0: Seq<ItemPtr>, ni: Option<ItemPtr>, rel: int, re: bool, len: int, read: int, kind: OffsetKind) -> bool {
+    &&& cursor_ok(ni, rel, re, kind)
+    &&& walk_inv(c0, chain(ni))
+    &&& 0 <= read <= a0.len()
+    &&& 0 <= len
+    &&& read + len == l
+    &&& buf.len() == l && buf0.len() == l
+    &&& ahead_of(ni, rel, re) =~= a0.skip(read)
+    &&& forall|j: int| 0 <= j < read ==> buf[j] == a0[j]
+    &&& forall|j: int| read <= j < l ==> buf[j] == buf0[j]
+}
+
+/// lexicographic order on (cursor measure, elements still wanted)
+pub open spec fn lex_lt(m1: int, l1: int, m2: int, l2: int) -> bool {
+    m1 < m2 || (m1 == m2 && l1 < l2)
+}
+
+/// one visible item read by `slice`: r elements from offset `rel` of `item` go to buf[read ..]
+pub proof fn lemma_slice_read(a0: Seq<Out>, l: int, buf0: Seq<Out>, buf: Seq<Out>, buf2: Seq<Out>, c0: Seq<ItemPtr>, item: ItemPtr, rel: int, len: int, read: int, r: int, kind: OffsetKind)
+    requires
+        slice_inv(a0, l, buf0, buf, c0, Some(item), rel, false, len, read, kind),
+        vis(item),
+        len > 0,
+        read_post(elems(item), rel, buf.subrange(read, l), buf2.subrange(read, l), r),
+        buf2.len() == l,
+        forall|j: int| 0 <= j < read ==> buf2[j] == buf[j],
+    ensures
+        item_ok(item, kind),
+        0 <= rel < elems(item).len(),
+        r == min(elems(item).len() - rel, len),
+        r >= 1,
+        // the whole rest of the item was read: go on with the next item ...
+        rel + r == elems(item).len() && item.right is Some ==> slice_inv(a0, l, buf0, buf2, c0, item.right, 0, false, len - r, read + r, kind),
+        // ... or, behind the last item, be at the end
+        rel + r == elems(item).len() && item.right is None ==> slice_inv(a0, l, buf0, buf2, c0, Some(item), 0, true, len - r, read + r, kind),
+        // ... or the buffer is full: stay inside the item
+        rel + r != elems(item).len() ==> len - r == 0 && slice_inv(a0, l, buf0, buf2, c0, Some(item), rel + r, false, len - r, read + r, kind),
+{
+    lemma_view_step(item);
+    lemma_walk_step(c0, item, kind);
+    lemma_view_len(chain(item.right));
+    let e = elems(item);
+    let rest = view(chain(item.right));
+    let w = view(chain(Some(item)));
+    assert(w =~= e + rest);
+    assert(w.skip(rel) =~= a0.skip(read));
+    assert(buf.subrange(read, l).len() == len);
+    assert forall|j: int| 0 <= j < read + r implies buf2[j] == a0[j] by {
+        if j >= read {
+            assert(buf2.subrange(read, l)[j - read] == e[rel + (j - read)]);
+            assert(a0.skip(read)[j - read] == w.skip(rel)[j - read]);
+        }
+    }
+    assert forall|j: int| read + r <= j < l implies buf2[j] == buf0[j] by {
+        assert(buf2.subrange(read, l)[j - read] == buf.subrange(read, l)[j - read]);
+    }
+    assert(a0.skip(read).len() == w.len() - rel);
+    if rel + r == e.len() {
+        assert(w.skip(rel).skip(r) =~= rest);
+        assert(a0.skip(read).skip(r) =~= a0.skip(read + r));
+        assert(rest.skip(0) =~= rest);
+        if item.right is None {
+            assert(rest =~= Seq::<Out>::empty());
+        }
+    } else {
+        assert(w.skip(rel).skip(r) =~= w.skip(rel + r));
+        assert(a0.skip(read).skip(r) =~= a0.skip(read + r));
+    }
+}
+
+/// an item `slice` / `try_forward` pass without reading: nothing of it is in V
+pub proof fn lemma_slice_pass(a0: Seq<Out>, l: int, buf0: Seq<Out>, buf: Seq<Out>, c0: Seq<ItemPtr>, item: ItemPtr, rel: int, len: int, read: int, kind: OffsetKind)
+    requires
+        slice_inv(a0, l, buf0, buf, c0, Some(item), rel, false, len, read, kind),
+        !vis(item),
+    ensures
+        rel == 0,
+        item.right is Some ==> slice_inv(a0, l, buf0, buf, c0, item.right, 0, false, len, read, kind),
+        item.right is None ==> slice_inv(a0, l, buf0, buf, c0, Some(item), 0, true, len, read, kind),
+{
+    lemma_view_step(item);
+    lemma_walk_step(c0, item, kind);
+    let rest = view(chain(item.right));
+    assert(view(chain(Some(item))) =~= rest);
+    assert(rest.skip(0) =~= rest);
+    assert(view(chain(Some(item))).skip(0) =~= view(chain(Some(item))));
+    if item.right is None {
+        assert(rest =~= Seq::<Out>::empty());
+    }
+}
+
+impl BlockIter {
+    /*@extract yrs/src/block_iter.rs | impl BlockIter | fn forward | label=block_iter_forward
+    @sig
+        requires
+            old(self).cwf(txn.kind_spec()),
+            old(self).index + len <= u32::MAX,
+            // `panic!("Length exceeded")` otherwise: the target must not exceed the CACHED counter
+            (len == 0 && old(self).next_item is None) || (old(self).index + len <= old(self).branch.content_len && old(self).next_item is Some),
+        ensures
+            final(self).branch == old(self).branch,
+            final(self).cwf(txn.kind_spec()),
+            final(self).ahead() =~= old(self).ahead().skip(min(len as int, old(self).ahead().len() as int)),
+            final(self).index == old(self).index + min(len as int, old(self).ahead().len() as int),
+            old(self).wf(txn.kind_spec()) ==> final(self).wf(txn.kind_spec()),
+    @*/
+
+    /*@extract yrs/src/block_iter.rs | impl BlockIter | fn slice | label=block_iter_slice
+    @ret r
+    @sig
+        requires
+            old(self).wf(txn.kind_spec()),
+            // DOMAIN RESTRICTIONS: `buf.len() as u32` is a truncating cast, `self.index + len` an unchecked u32 addition
+            old(buf)@.len() <= u32::MAX,
+            old(self).index + old(buf)@.len() <= u32::MAX,
+        ensures
+            final(self).branch == old(self).branch,
+            final(buf)@.len() == old(buf)@.len(),
+            // a buffer that reaches beyond the CACHED counter `branch.content_len` is refused as a whole: nothing is read,
+            // nothing changes
+            old(self).index + old(buf)@.len() > old(self).branch.content_len ==> r == 0 && *final(self) == *old(self) && final(buf)@ == old(buf)@,
+            // otherwise, from position p: buf[0 .. r) == V[p .. p + r),  r == min(buf.len(), |V| - p),  the rest of the buffer is
+            // untouched, the cursor stands at p + r
+            old(self).index + old(buf)@.len() <= old(self).branch.content_len ==> {
+                &&& r == min(old(buf)@.len() as int, bview(old(self).branch).len() - old(self).index)
+                &&& forall|j: int| 0 <= j < r ==> final(buf)@[j] == bview(old(self).branch)[old(self).index + j]
+                &&& forall|j: int| r <= j < old(buf)@.len() ==> final(buf)@[j] == old(buf)@[j]
+                &&& final(self).wf(txn.kind_spec())
+                &&& final(self).index == old(self).index + r
+            },
+    @start
+        let ghost kind = txn.kind_spec();
+        let ghost c0 = chain(self.branch.start);
+        let ghost vv = bview(self.branch);
+        let ghost p0 = self.index as int;
+        let ghost a0 = self.ahead();
+        let ghost buf0 = buf@;
+        let ghost l = buf@.len() as int;
+    @loop 1
+        invariant
+            self.branch == old(self).branch,
+            self.index == p0 + l,
+            p0 + l <= self.branch.content_len,
+            encoding == kind,
+            kind == txn.kind_spec(),
+            slice_inv(a0, l, buf0, buf@, c0, next_item, self.rel as int, self.reached_end, len as int, read as int, kind),
+            self.rel <= p0 + read,
+            c0 == chain(self.branch.start),
+            l <= u32::MAX && p0 + l <= u32::MAX,
+        ensures
+            len == 0 || self.reached_end,
+        decreases
+            cursor_measure(next_item, self.reached_end), len,
+    @loopstart 1
+        let ghost vx_m = cursor_measure(next_item, self.reached_end);
+        let ghost vx_len = len;
+        let ghost vx_ni = next_item;
+        let ghost vx_re = self.reached_end;
+    @loop 2
+        invariant
+            self.branch == old(self).branch,
+            self.index == p0 + l,
+            p0 + l <= self.branch.content_len,
+            encoding == kind,
+            kind == txn.kind_spec(),
+            slice_inv(a0, l, buf0, buf@, c0, next_item, self.rel as int, self.reached_end, len as int, read as int, kind),
+            self.rel <= p0 + read,
+            c0 == chain(self.branch.start),
+            l <= u32::MAX && p0 + l <= u32::MAX,
+            !vx_re,
+            vx_m == cursor_measure(vx_ni, vx_re),
+            lex_lt(cursor_measure(next_item, self.reached_end), len as int, vx_m, vx_len as int) || (next_item == vx_ni && self.reached_end == vx_re && len == vx_len),
+        ensures
+            self.reached_end || len == 0 || (next_item is Some && !next_item.unwrap().info.countable_spec()),
+        decreases
+            cursor_measure(next_item, self.reached_end), len,
+    @loopstart 2
+        let ghost vx_buf = buf@;
+        let ghost vx_rel = self.rel as int;
+        let ghost vx_l2 = len as int;
+        let ghost vx_r2 = read as int;
+        proof {
+            lemma_view_step(item);
+            if !self.reached_end && !vis(item) {
+                lemma_slice_pass(a0, l, buf0, buf@, c0, item, self.rel as int, len as int, read as int, kind);
+            }
+        }
+    @after 1 `stmt:let r`
+        proof {
+            assert(buf@.subrange(0, vx_r2) =~= vx_buf.subrange(0, vx_r2));
+            assert forall|j: int| 0 <= j < vx_r2 implies buf@[j] == vx_buf[j] by {
+                assert(buf@.subrange(0, vx_r2)[j] == vx_buf.subrange(0, vx_r2)[j]);
+            }
+            lemma_slice_read(a0, l, buf0, vx_buf, buf@, c0, item, vx_rel, vx_l2, vx_r2, r as int, kind);
+        }
+    @afterloop 1
+        proof {
+            lemma_view_len(chain(next_item));
+            assert(vv.skip(p0).skip(read as int) =~= vv.skip(p0 + read));
+            assert forall|j: int| 0 <= j < read implies buf@[j] == vv[p0 + j] by {
+                assert(a0[j] == vv.skip(p0)[j]);
+            }
+        }
+    @*/
+
+    /*@extract yrs/src/block_iter.rs | impl BlockIter | fn read_value | label=block_iter_read_value | rules=SUB(from=std::mem::replace;;to=vx_replace)
+    @ret r
+    @sig
+        requires
+            old(self).wf(txn.kind_spec()),
+            // DOMAIN RESTRICTION (`self.index + len` in `slice`)
+            old(self).index < u32::MAX,
+        ensures
+            final(self).branch == old(self).branch,
+            // V[p], and the cursor advances by one -- if there is a V[p] and p lies below the CACHED counter `branch.content_len`;
+            // None at the end (and at the cached counter), the position stays
+            r == get_spec(old(self).branch, old(self).index as int),
+            final(self).wf(txn.kind_spec()),
+            final(self).index == old(self).index + (if r is Some { 1int } else { 0int }),
+            old(self).index >= old(self).branch.content_len ==> *final(self) == *old(self),
+    @*/
+}
+
+// ---------------------------------------------------------------------------------------------
+// the real code, part 3: arrays (yrs/src/types/array.rs)
+// ---------------------------------------------------------------------------------------------
+/// `std::borrow::Borrow<T>` as far as `ArrayIter` uses it
+pub trait Borrow<T> {
+    spec fn borrow_spec(&self) -> &T;
+
+    fn borrow(&self) -> (r: &T)
+        ensures
+            r == self.borrow_spec(),
+    ;
+}
+
+impl<T> Borrow<T> for T {
+    open spec fn borrow_spec(&self) -> &T {
+        self
+    }
+
+    fn borrow(&self) -> (r: &T) {
+        self
+    }
+}
+
+impl<'a, T> Borrow<T> for &'a T {
+    open spec fn borrow_spec(&self) -> &T {
+        *self
+    }
+
+    fn borrow(&self) -> (r: &T) {
+        *self
+    }
+}
+
+/*@extract yrs/src/types/array.rs | - | struct ArrayRef | rules=SUB(from=ArrayRef(BranchPtr);;to=ArrayRef(pub BranchPtr)) @*/
+
+/*@extract yrs/src/types/array.rs | - | struct ArrayIter | rules=SUB(from=inner: BlockIter,;;to=pub inner: BlockIter,) SUB(from=txn: B,;;to=pub txn: B,) SUB(from=_marker: PhantomData<T>,;;to=pub _marker: PhantomData<T>,) @*/
+
+impl<B: Borrow<T>, T: ReadTxn> ArrayIter<B, T> {
+    /// the unit in which the document of the iterator's transaction counts text
+    pub open spec fn kind(&self) -> OffsetKind {
+        self.txn.borrow_spec().kind_spec()
+    }
+
+    pub open spec fn wf(&self) -> bool {
+        self.inner.wf(self.kind())
+    }
+
+    /// the elements the iterator has not handed out yet
+    pub open spec fn pending(&self) -> Seq<Out> {
+        self.inner.ahead()
+    }
+
+    // real: `impl<B, T> Iterator for ArrayIter<B, T>` (emitted as an inherent method: a trait-method impl cannot carry `requires`)
+    /*@extract yrs/src/types/array.rs | impl<B, T> Iterator for ArrayIter<B, T> where B: Borrow<T>, T: ReadTxn, | fn next | label=array_iter_next | rules=SUB(from=Option<Self::Item>;;to=Option<Out>) SUB(from=std::mem::replace;;to=vx_replace)
+    @ret r
+    @sig
+        requires
+            old(self).wf(),
+            // DOMAIN RESTRICTION (`self.index + len` in `slice`)
+            old(self).inner.index < u32::MAX,
+        ensures
+            final(self).wf(),
+            final(self).inner.branch == old(self).inner.branch,
+            final(self).kind() == old(self).kind(),
+            // hands out V[p] and steps behind it -- while p lies below |V| and below the CACHED counter `branch.content_len`
+            r == get_spec(old(self).inner.branch, old(self).inner.index as int),
+            r is Some ==> final(self).inner.index == old(self).inner.index + 1 && final(self).pending() =~= old(self).pending().skip(1) && r == Some(old(self).pending()[0]),
+            r is None ==> final(self).inner.index == old(self).inner.index && final(self).pending() =~= old(self).pending(),
+            // with the cached counter right: None exactly when nothing is pending
+            old(self).inner.branch.content_len == bview(old(self).inner.branch).len() ==> (r is None <==> old(self).pending().len() == 0),
+    @start
+        proof {
+            lemma_pos(&self.inner, self.kind());
+            if self.inner.index < bview(self.inner.branch).len() {
+                assert(bview(self.inner.branch).skip(self.inner.index as int).skip(1) =~= bview(self.inner.branch).skip(self.inner.index + 1));
+            }
+        }
+    @*/
+}
+
+impl<T: Borrow<T> + ReadTxn> ArrayIter<T, T> {
+    /*@extract yrs/src/types/array.rs | impl<T> ArrayIter<T, T> where T: Borrow<T> + ReadTxn, | fn from | label=array_iter_from
+    @ret r
+    @sig
+        ensures
+            r.inner.branch == array.0 && r.inner.index == 0 && r.txn == txn,
+            r.pending() == bview(array.0),
+            items_ok(chain(array.0.start), r.kind()) ==> r.wf(),
+    @*/
+}
+
+impl<'a, T: Borrow<T> + ReadTxn> ArrayIter<&'a T, T> {
+    /*@extract yrs/src/types/array.rs | impl<'a, T> ArrayIter<&'a T, T> where T: Borrow<T> + ReadTxn, | fn from_ref | label=array_iter_from_ref | rules=SUB(from=array: &Branch;;to=array: BranchPtr) SUB(from=BranchPtr::from(array);;to=array)
+    @ret r
+    @sig
+        ensures
+            r.inner.branch == array && r.inner.index == 0 && r.txn == txn,
+            r.pending() == bview(array),
+            items_ok(chain(array.start), txn.kind_spec()) ==> r.wf(),
+    @*/
+}
+
+impl ArrayRef {
+    /*@extract yrs/src/types/array.rs | impl AsRef<Branch> for ArrayRef | fn as_ref | label=array_as_ref | rules=SUB(from=self.0.deref();;to=self.0) SUB(from=-> &Branch;;to=-> BranchPtr)
+    @ret r
+    @sig
+        ensures r == self.0,
+    @*/
+
+    // the default methods of `trait Array` (implementor: ArrayRef), emitted as inherent methods
+    /*@extract yrs/src/types/array.rs | trait Array: AsRef<Branch> + Sized | fn len | label=array_len
+    @ret r
+    @sig
+        ensures
+            // the CACHED counter `block_len`
+            r == self.0.block_len,
+    @*/
+
+    /*@extract yrs/src/types/array.rs | trait Array: AsRef<Branch> + Sized | fn get | label=array_get | rules=SUB(from=BranchPtr::from(self.as_ref());;to=self.as_ref())
+    @ret r
+    @sig
+        requires
+            items_ok(chain(self.0.start), txn.kind_spec()),
+            // DOMAIN RESTRICTION (`self.index + len` in `slice`)
+            index < u32::MAX,
+        ensures
+            // V[index] -- if there is one and index lies below the CACHED counter `content_len`
+            r == get_spec(self.0, index as int),
+            // with the cached counter right: None exactly when index is out of range
+            self.0.content_len == bview(self.0).len() ==> (r is None <==> index >= bview(self.0).len()),
+    @*/
+
+    /*@extract yrs/src/types/array.rs | trait Array: AsRef<Branch> + Sized | fn iter | label=array_iter
+    @ret r
+    @sig
+        ensures
+            r.inner.branch == self.0 && r.inner.index == 0,
+            r.pending() == bview(self.0),
+            items_ok(chain(self.0.start), txn.kind_spec()) ==> r.wf(),
+    @*/
+
+    // real: `impl ToJson for ArrayRef`
+    /*@extract yrs/src/types/array.rs | impl ToJson for ArrayRef | fn to_json | label=array_to_json | rules=SUB(from=buf.into_iter();;to=vx_into_iter(buf))
+    @ret r
+    @sig
+        requires
+            items_ok(chain(self.0.start), txn.kind_spec()),
+            // THE PRECONDITION (what integration has to maintain; the weakest one under which the `panic!("Defect: Array::to_json
+            // didn't read all elements")` is unreachable): the cached counter `block_len` does not exceed |V| nor the other cached
+            // counter `content_len` (the buffer of `block_len` elements is refused as a whole by `slice` otherwise)
+            self.0.block_len == 0 || (self.0.block_len <= bview(self.0).len() && self.0.block_len <= self.0.content_len),
+        ensures
+            // the JSON array of the first `block_len` elements of V ...
+            r == Any::Array(Ghost(to_json_spec(self.0))),
+            // ... i.e. of V, if the cached counter is right
+            self.0.block_len == bview(self.0).len() ==> r == Any::Array(Ghost(bview(self.0).map_values(|o: Out| json_of(o)))),
+    @closure 1 `|v: Out| -> (vx_j: Any)`
+        ensures vx_j == json_of(v),
+    @after 1 `stmt:let res`
+        proof {
+            assert(res@ =~= to_json_spec(self.0));
+            if self.0.block_len == bview(self.0).len() {
+                assert(bview(self.0).take(self.0.block_len as int) =~= bview(self.0));
+            }
+        }
+    @*/
+}
+
+// ---------------------------------------------------------------------------------------------
+// the real code, part 4: text (yrs/src/types/text.rs)
+// ---------------------------------------------------------------------------------------------
+/*@extract yrs/src/types/text.rs | - | struct TextRef | rules=SUB(from=TextRef(BranchPtr);;to=TextRef(pub BranchPtr)) @*/
+
+/// the characters an item contributes to `get_string`: those of its String content unless it is a tombstone
+pub open spec fn item_text(p: &Item) -> Seq<char> {
+    match p.content {
+        ItemContent::String(s) => if !p.info.deleted_spec() { s.chars() } else { Seq::empty() },
+        _ => Seq::empty(),
+    }
+}
+
+/// what `get_string` returns: the String contents of the items that are not tombstones, in order
+pub open spec fn text_of(c: Seq<ItemPtr>) -> Seq<char>
+    decreases c.len(),
+{
+    if c.len() == 0 { Seq::empty() } else { item_text(c[0]) + text_of(c.skip(1)) }
+}
+
+impl TextRef {
+    /*@extract yrs/src/types/text.rs | impl AsRef<Branch> for TextRef | fn as_ref | label=text_as_ref | rules=SUB(from=self.0.deref();;to=self.0) SUB(from=-> &Branch;;to=-> BranchPtr)
+    @ret r
+    @sig
+        ensures r == self.0,
+    @*/
+
+    /*@extract yrs/src/types/text.rs | trait Text: AsRef<Branch> + Sized | fn len | label=text_len
+    @ret r
+    @sig
+        ensures
+            // the CACHED counter `content_len`
+            r == self.0.content_len,
+    @*/
+
+    // real: `impl GetString for TextRef`
+    /*@extract yrs/src/types/text.rs | impl GetString for TextRef | fn get_string | label=text_get_string
+    @ret r
+    @sig
+        ensures
+            // the String contents of the items that are not tombstones, in list order (whether countable or not; embeds, formats
+            // and nested types contribute nothing)
+            r.chars@ == text_of(chain(self.0.start)),
+    @start
+        let ghost c0 = chain(self.0.start);
+    @loop 1
+        invariant
+            c0 == chain(self.0.start),
+            text_of(c0) =~= s.chars@ + text_of(chain(start)),
+        ensures
+            text_of(c0) =~= s.chars@,
+        decreases
+            chain(start).len(),
+    @loopstart 1
+        proof {
+            lemma_view_step(item);
+            assert(chain(start).skip(1) =~= chain(item.right));
+        }
+    @*/
+}
+
+/// termination measure of a cursor: twice the number of items from it on, plus one while the end has not been reached
+pub open spec fn cursor_measure(ni: Option<ItemPtr>, re: bool) -> int {
+    2 * chain(ni).len() + (if re { 0int } else { 1int })
+}
+
+
+// ---------------------------------------------------------------------------------------------
+// the real code, part 5: the loop bodies once more, each lifted on its own (R18 statement regions; `self.` is spelled `it.`, the
+// ways out of the body -- `break`, `continue`, `return false`, falling through -- are spelled as a result code: SUB / tail, logged),
+// so that an edit of a loop body fails a contract clause of real code and not only the loop invariant spliced into the whole
+// function.  STEP level.
+// ---------------------------------------------------------------------------------------------
+/// the index units `try_forward` sees in an item
+pub open spec fn clen(p: &Item, kind: OffsetKind) -> int {
+    p.content.len_spec(kind) as int
+}
+
+// body of the loop of `try_forward`.  Result: (item, len, how the body was left: 0 = fell through, 1 = `break`, 2 = `return false`)
+/*@extract yrs/src/block_iter.rs | impl BlockIter | region try_forward | stmt=stmt:while #1 >> stmt:if | stmtnth=1 | upto=stmt:while #1 >> stmt:match | tail=(item, len, 0u8) | label=try_forward_step | rules=SUB(from=self.;;to=it.) SUB(from=break;;to=return (item, len, 1u8)) SUB(from=return false;;to=return (item, len, 2u8))
+@header
+    pub fn try_forward_step(it: &mut BlockIter, mut item: Option<ItemPtr>, mut len: u32, encoding: OffsetKind) -> (r: (Option<ItemPtr>, u32, u8))
+@sig
+    requires
+        // the loop condition `can_forward(item, len)`, on an existing item
+        item is Some,
+        !old(it).reached_end && (len > 0 || !vis(item.unwrap())),
+    ensures
+        final(it).branch == old(it).branch && final(it).index == old(it).index && final(it).next_item == old(it).next_item,
+        // the target lies INSIDE this visible item: stop ON it, `rel` = what was left to pass
+        vis(item.unwrap()) && len > 0 && clen(item.unwrap(), encoding) > len
+            ==> r == (item, 0u32, 1u8) && final(it).rel == len && !final(it).reached_end,
+        // otherwise the item is passed -- a visible one takes its index units off `len`, an invisible one (tombstone / not
+        // countable) nothing -- and the walk goes on with the right neighbour, or has reached the end behind the last item
+        !(vis(item.unwrap()) && len > 0 && clen(item.unwrap(), encoding) > len) ==> {
+            &&& r.2 == 0
+            &&& r.1 == len - (if vis(item.unwrap()) && len > 0 { clen(item.unwrap(), encoding) } else { 0 })
+            &&& final(it).rel == old(it).rel
+            &&& item.unwrap().right is Some ==> r.0 == item.unwrap().right && !final(it).reached_end
+            &&& item.unwrap().right is None ==> r.0 == item && final(it).reached_end
+        },
+@*/
+
+// body of the inner loop of `slice`.  Result: (next_item, read, len, how the body was left: 0 = fell through, 1 = `continue`, 2 = `break`)
+/*@extract yrs/src/block_iter.rs | impl BlockIter | region slice | stmt=stmt:while #2 >> stmt:if | stmtnth=1 | tail=(next_item, read, len, 0u8) | label=slice_step | rules=SUB(from=self.;;to=it.) SUB(from=continue;;to=return (next_item, read, len, 1u8)) SUB(from=break;;to=return (next_item, read, len, 2u8))
+@header
+    pub fn slice_step(it: &mut BlockIter, item: ItemPtr, mut next_item: Option<ItemPtr>, buf: &mut [Out], mut read: u32, mut len: u32, encoding: OffsetKind) -> (r: (Option<ItemPtr>, u32, u32, u8))
+@sig
+    requires
+        next_item == Some(item),
+        item_ok(item, encoding),
+        read + len == old(buf)@.len() <= u32::MAX,
+        // the cursor is in order: `rel` is 0 or an offset inside the visible item
+        old(it).rel == 0 || (vis(item) && old(it).rel < elems(item).len()),
+    ensures
+        final(it).branch == old(it).branch && final(it).index == old(it).index && final(it).next_item == old(it).next_item,
+        final(buf)@.len() == old(buf)@.len(),
+        // not countable, or at the end, or the buffer is full: leave the loop, nothing changes
+        !(item.info.countable_spec() && !old(it).reached_end && len > 0)
+            ==> r == (next_item, read, len, 2u8) && *final(it) == *old(it) && final(buf)@ == old(buf)@,
+        // a countable TOMBSTONE: nothing is read, go on with the right neighbour (or be at the end)
+        item.info.countable_spec() && !old(it).reached_end && len > 0 && item.info.deleted_spec() ==> {
+            &&& final(buf)@ == old(buf)@ && r.1 == read && r.2 == len && r.3 == 0 && final(it).rel == old(it).rel
+            &&& item.right is Some ==> r.0 == item.right && !final(it).reached_end
+            &&& item.right is None ==> r.0 == next_item && final(it).reached_end
+        },
+        // a VISIBLE item: its elements from offset `rel` on go to buf[read ..], as many as it has and the buffer still takes
+        vis(item) && !old(it).reached_end && len > 0 ==> {
+            let n = min(elems(item).len() - old(it).rel, len as int);
+            &&& r.1 == read + n && r.2 == len - n
+            &&& forall|j: int| 0 <= j < n ==> final(buf)@[read + j] == elems(item)[old(it).rel + j]
+            &&& forall|j: int| 0 <= j < old(buf)@.len() && !(read <= j < read + n) ==> final(buf)@[j] == old(buf)@[j]
+            // the whole rest of the item was read: offset 0 of the right neighbour (or the end) ...
+            &&& old(it).rel + n == elems(item).len() ==> r.3 == 0 && final(it).rel == 0
+                && (item.right is Some ==> r.0 == item.right && !final(it).reached_end)
+                && (item.right is None ==> r.0 == next_item && final(it).reached_end)
+            // ... or the buffer is full: stay inside the item, n elements further
+            &&& old(it).rel + n != elems(item).len() ==> r.3 == 1 && final(it).rel == old(it).rel + n && r.0 == next_item && !final(it).reached_end
+        },
+@*/
+
+// body of the loop of `get_string`
+/*@extract yrs/src/types/text.rs | impl GetString for TextRef | region get_string | stmt=stmt:while #1 >> stmt:if | stmtnth=1 | label=get_string_step
+@header
+    pub fn get_string_step(item: &Item, s: &mut String)
+@sig
+    ensures
+        // the characters of a String content that is not a tombstone are appended; nothing else is
+        final(s).chars@ == old(s).chars@ + item_text(item),
 @*/
 
 } // verus!
